@@ -127,6 +127,11 @@ Theorem c08_resolver_absorbs_cycle_partial : forall o dv fuel0 root a p sep s pc
 Proof. exact reentered_reference_resolver_absorbs. Qed.
 Print Assumptions c08_resolver_absorbs_cycle_partial.
 
+Theorem c08_path_walk_leaves_no_name_active : forall dv fuel0 fs a cur r a',
+  get_path_dyn dv fuel0 fs a cur = Ok (r, a') -> forall n, n <> cyc_marker -> act_has n a' = act_has n a.
+Proof. exact path_walk_restores. Qed.
+Print Assumptions c08_path_walk_leaves_no_name_active.
+
 Theorem c08_pieces_do_not_see_each_other_partial : forall A a (r : R A) x a',
   scoped a r = Ok (x, a') -> forall n, n <> cyc_marker -> act_has n a' = act_has n a.
 Proof. exact @scoped_restores. Qed.
